@@ -2170,7 +2170,10 @@ fn generate_for_init(
                 let mut tail_ast = generate_variable_definition(def, context)?;
 
                 // The base type definitions should all match
-                assert_eq!(ast.local_type, tail_ast.local_type);
+                // An array of objects is declared with an array type instead of a declarator so can not share the declaration
+                if ast.local_type != tail_ast.local_type {
+                    return Err(GenerateError::ComplexTypeBind);
+                }
 
                 // There should only be one entry
                 assert_eq!(tail_ast.defs.len(), 1);
